@@ -287,11 +287,9 @@ impl<F: RichField + Extendable<D>, const D: usize> StarkOpeningSet<F, D> {
 
         let mut batches = vec![zeta_batch, zeta_next_batch];
 
+        // This runs on unvalidated proofs (challenges are derived before the shape checks), so the
+        // consistency of the optional openings is enforced by the verifier's shape validation.
         if let Some(ctl_zs_first) = self.ctl_zs_first.as_ref() {
-            debug_assert!(!ctl_zs_first.is_empty());
-            debug_assert!(self.auxiliary_polys.is_some());
-            debug_assert!(self.auxiliary_polys_next.is_some());
-
             let ctl_first_batch = FriOpeningBatch {
                 values: ctl_zs_first
                     .iter()
